@@ -70,19 +70,57 @@ def detect(facts, label):
 
     missing = [n for n in base_a if n not in prog_adts]
     new = [n for n in prog_adts if n not in base_a]
-    for m in missing:
-        want = shape(base_a[m]["variants"], names=base_a[m]["kind"] == "Enum")
-        cands = []
-        for n in new:
-            if split_last(n)[0] != split_last(m)[0] or prog_adts[n]["kind"] != base_a[m]["kind"]:
-                continue
-            got = [(v["name"] if base_a[m]["kind"] == "Enum" else None, [_apply(f["ty"], dict(ren, **{n: m})) for f in v["fields"]])
-                   for v in prog_adts[n]["variants"]]
-            if got == want:
-                cands.append(n)
-        if len(cands) == 1:
-            ren[cands[0]] = m
-            new.remove(cands[0])
+    # fixpoint: the shape of one renamed type may mention another renamed type
+    progress = True
+    while progress:
+        progress = False
+        for m in list(missing):
+            want = shape(base_a[m]["variants"], names=base_a[m]["kind"] == "Enum")
+            cands = []
+            for n in new:
+                if prog_adts[n]["kind"] != base_a[m]["kind"]:
+                    continue
+                got = [(v["name"] if base_a[m]["kind"] == "Enum" else None, [_apply(f["ty"], dict(ren, **{n: m})) for f in v["fields"]])
+                       for v in prog_adts[n]["variants"]]
+                if got == want:
+                    cands.append(n)
+            # renamed in place (same module) > moved to another module under its own name > the only new type of that shape
+            same_mod = [n for n in cands if split_last(n)[0] == split_last(m)[0]]
+            same_name = [n for n in cands if split_last(n)[1] == split_last(m)[1]]
+            pick = same_mod if len(same_mod) == 1 else same_name if len(same_name) == 1 and not same_mod else \
+                cands if len(cands) == 1 and base_a[m]["kind"] == "Enum" else []
+            if len(pick) == 1:
+                ren[pick[0]] = m
+                new.remove(pick[0])
+                missing.remove(m)
+                progress = True
+
+    # ---- inherent impl blocks may be written in any module: `m::<impl path::T<'_>>::f` and `path::T::<'a>::f` are the same method
+    def inherent_key(n):
+        if n.startswith("<"):
+            return None
+        mo = re.match(r"^.*::<impl (.+)>::([A-Za-z0-9_]+)$", n)
+        if mo:
+            if " for " in mo.group(1):
+                return None
+            return (re.sub(r"<[^<>]*>$", "", mo.group(1)), mo.group(2))
+        o, last = split_last(n)
+        return (re.sub(r"::<[^<>]*>$", "", o), last) if o else None
+
+    by_key = {}
+    for n in prog_fns:
+        if n not in base_f and prog_fns[n].get("kind") == "AssocFn":
+            k = inherent_key(_apply(n, ren))
+            if k:
+                by_key.setdefault(k, []).append(n)
+    for m in base_f:
+        if m in prog_fns or base_f[m]["kind"] != "AssocFn":
+            continue
+        k = inherent_key(m)
+        if k and len(by_key.get(k, [])) == 1:
+            n = by_key[k][0]
+            ren[n] = m
+            prog_fns[m] = prog_fns.pop(n)
 
     # ---- functions (signatures compared after the type renames)
     missing_f = [n for n in base_f if n not in prog_fns]
